@@ -10,6 +10,8 @@ import (
 	"github.com/glebziz/fs_db/internal/utils/async"
 )
 
+import "github.com/glebziz/fs_db/internal/verifhook"
+
 func (db *db) Create(ctx context.Context, key string) (fs_db.File, error) {
 	rw := async.NewReadWriter()
 	rw.Add(1)
@@ -18,6 +20,7 @@ func (db *db) Create(ctx context.Context, key string) (fs_db.File, error) {
 
 		err := db.container.Store().Set(ctx, key, rw)
 		if err != nil {
+			verifhook.At("inline.create.setFailed")
 			var errNotEnoughSpace model.NotEnoughSpaceError
 			if errors.As(err, &errNotEnoughSpace) {
 				errNotEnoughSpace.Close()
